@@ -22,20 +22,20 @@ fn c17_execute() {
     let is_op = inst().pre_has(&op_key(&operator));
     match r {
         Ok(v) => {
-            assert!(shim::authed(&operator), "OBL C07.execute_needs_operator_auth: a call is forwarded in an operator's name only under that operator's own authorisation");
-            assert!(is_op, "OBL C17.only_current_operators: the caller is in the operator set at that moment");
+            soroban_sdk::obl!(shim::authed(&operator), "OBL C07.execute_needs_operator_auth: a call is forwarded in an operator's name only under that operator's own authorisation");
+            soroban_sdk::obl!(is_op, "OBL C17.only_current_operators: the caller is in the operator set at that moment");
             let c = shim::call(0);
-            assert!(
+            soroban_sdk::obl!(
                 shim::n_calls() == 1 && c.callee == target.0 && c.func == func.0 && c.args == Words::of(&args),
                 "OBL C17.forwarded_intact_once: exactly one call, to exactly the named contract and function with the arguments unchanged"
             );
-            assert!(shim::same_val(&v, &shim::call_ret::<Val>(0)), "OBL C17.result_handed_back_unchanged: what the target returned is handed back as it is");
-            assert!(inst().n_changed() == 0 && pers().n_changed() == 0 && temp().n_changed() == 0 && shim::n_events() == 0, "OBL C17.execute_frame");
+            soroban_sdk::obl!(shim::same_val(&v, &shim::call_ret::<Val>(0)), "OBL C17.result_handed_back_unchanged: what the target returned is handed back as it is");
+            soroban_sdk::obl!(inst().n_changed() == 0 && pers().n_changed() == 0 && temp().n_changed() == 0 && shim::n_events() == 0, "OBL C17.execute_frame");
             kani::cover!(true, "COVER execute ok");
         }
         Err(e) => {
-            assert!(!is_op && e == ContractError::NotAnOperator, "OBL C17.execute_err_only_non_operator");
-            assert!(shim::no_effects(), "OBL C17.refused_execute_no_effect: nothing is forwarded for a non-operator");
+            soroban_sdk::obl!(!is_op && e == ContractError::NotAnOperator, "OBL C17.execute_err_only_non_operator");
+            soroban_sdk::obl!(shim::no_effects(), "OBL C17.refused_execute_no_effect: nothing is forwarded for a non-operator");
             kani::cover!(true, "COVER execute err");
         }
     }
@@ -51,15 +51,15 @@ fn c17_add_operator() {
     let was = inst().pre_has(&op_key(&a));
     match r {
         Ok(()) => {
-            assert!(matches!(&owner, Some(o) if shim::authed(o)), "OBL C06.add_operator_needs_owner: the operator set changes only under the authorisation of the owner stored at entry");
-            assert!(!was && inst().post_has(&op_key(&a)), "OBL C17.add_absent_to_present: only an absent address is added");
-            assert!(inst().changed_only(&[Words::of(&op_key(&a))]) && pers().n_changed() == 0 && shim::n_calls() == 0, "OBL C17.add_frame: no other member changes");
-            assert!(shim::n_events() == 1 && shim::event_is(0, &(Symbol::new(&env, "operator_added"), a.clone()), &()), "OBL C17.add_event");
+            soroban_sdk::obl!(matches!(&owner, Some(o) if shim::authed(o)), "OBL C06.add_operator_needs_owner: the operator set changes only under the authorisation of the owner stored at entry");
+            soroban_sdk::obl!(!was && inst().post_has(&op_key(&a)), "OBL C17.add_absent_to_present: only an absent address is added");
+            soroban_sdk::obl!(inst().changed_only(&[Words::of(&op_key(&a))]) && pers().n_changed() == 0 && shim::n_calls() == 0, "OBL C17.add_frame: no other member changes");
+            soroban_sdk::obl!(shim::n_events() == 1 && shim::event_is(0, &(Symbol::new(&env, "operator_added"), a.clone()), &()), "OBL C17.add_event");
             kani::cover!(true, "COVER add_operator ok");
         }
         Err(e) => {
-            assert!(was && e == ContractError::OperatorAlreadyAdded, "OBL C17.add_err_only_if_present");
-            assert!(shim::no_effects(), "OBL C17.refused_add_no_effect");
+            soroban_sdk::obl!(was && e == ContractError::OperatorAlreadyAdded, "OBL C17.add_err_only_if_present");
+            soroban_sdk::obl!(shim::no_effects(), "OBL C17.refused_add_no_effect");
             kani::cover!(true, "COVER add_operator err");
         }
     }
@@ -75,15 +75,15 @@ fn c17_remove_operator() {
     let was = inst().pre_has(&op_key(&a));
     match r {
         Ok(()) => {
-            assert!(matches!(&owner, Some(o) if shim::authed(o)), "OBL C06.remove_operator_needs_owner");
-            assert!(was && !inst().post_has(&op_key(&a)), "OBL C17.remove_present_to_absent: only a present address is removed");
-            assert!(inst().changed_only(&[Words::of(&op_key(&a))]) && pers().n_changed() == 0 && shim::n_calls() == 0, "OBL C17.remove_frame");
-            assert!(shim::n_events() == 1 && shim::event_is(0, &(Symbol::new(&env, "operator_removed"), a.clone()), &()), "OBL C17.remove_event");
+            soroban_sdk::obl!(matches!(&owner, Some(o) if shim::authed(o)), "OBL C06.remove_operator_needs_owner");
+            soroban_sdk::obl!(was && !inst().post_has(&op_key(&a)), "OBL C17.remove_present_to_absent: only a present address is removed");
+            soroban_sdk::obl!(inst().changed_only(&[Words::of(&op_key(&a))]) && pers().n_changed() == 0 && shim::n_calls() == 0, "OBL C17.remove_frame");
+            soroban_sdk::obl!(shim::n_events() == 1 && shim::event_is(0, &(Symbol::new(&env, "operator_removed"), a.clone()), &()), "OBL C17.remove_event");
             kani::cover!(true, "COVER remove_operator ok");
         }
         Err(e) => {
-            assert!(!was && e == ContractError::NotAnOperator, "OBL C17.remove_err_only_if_absent");
-            assert!(shim::no_effects(), "OBL C17.refused_remove_no_effect");
+            soroban_sdk::obl!(!was && e == ContractError::NotAnOperator, "OBL C17.remove_err_only_if_absent");
+            soroban_sdk::obl!(shim::no_effects(), "OBL C17.refused_remove_no_effect");
             kani::cover!(true, "COVER remove_operator err");
         }
     }
@@ -95,11 +95,11 @@ fn c17_is_operator_and_ctor() {
     let _h = shim::fresh_host();
     let a = Address::symbolic();
     let r = O::is_operator(env.clone(), a.clone());
-    assert!(r == inst().pre_has(&op_key(&a)), "OBL C17.query_agrees_with_set");
-    assert!(shim::no_effects() && shim::n_auth() == 0, "OBL C17.query_pure");
+    soroban_sdk::obl!(r == inst().pre_has(&op_key(&a)), "OBL C17.query_agrees_with_set");
+    soroban_sdk::obl!(shim::no_effects() && shim::n_auth() == 0, "OBL C17.query_pure");
     let owner = Address::symbolic();
     O::__constructor(env.clone(), owner.clone());
-    assert!(inst().post::<_, Address>(&OWNER_KEY) == Some(owner) && inst().changed_only(&[Words::of(&OWNER_KEY)]), "OBL C17.ctor_sets_owner_only: the operator set starts as it was (empty on a fresh contract)");
+    soroban_sdk::obl!(inst().post::<_, Address>(&OWNER_KEY) == Some(owner) && inst().changed_only(&[Words::of(&OWNER_KEY)]), "OBL C17.ctor_sets_owner_only: the operator set starts as it was (empty on a fresh contract)");
     kani::cover!(r, "COVER is_operator true");
     kani::cover!(!r, "COVER is_operator false");
 }
